@@ -1,6 +1,6 @@
 ---------------------------- MODULE Oracle_Trace ----------------------------
 (* C07 binding over recorded histories (projections oracle, reports, aggs).    *)
-EXTENDS Oracle, Json, TLC, TraceLib
+EXTENDS OracleSM, Json, TLC, TraceLib
 CONSTANT KNOWN
 Trace == ndJsonDeserialize("trace.ndjson")
 VARIABLES l, viol, hist, qs, reps, aggs, cl, idx
@@ -63,7 +63,34 @@ CheckEnd(e, postqs, postaggs, postcl, postidx) ==
   \* (a clause "the query rotated to gets an open window" was removed: the property does not demand it and the
   \*  code legitimately rotates onto a query whose zero-tip round expires in this very block - see DESIGN.md)
 
+\* ---- conformance with the constructive model (OracleSM): the round table after the step is the one the model computes
+\* from the table before it and the call's arguments.  id / window of a round the step creates are inputs of the oracle
+\* module (sequencer, registry) and are read off the result.  A mismatch is reported as MODEL:<step> - model drift, not a
+\* verdict about the property (the clauses above are the verdict).
+IdsIn(S) == { r.id : r \in S } \cup {0}
+WinsIn(S) == { r.win : r \in S } \cup {0}
+SMCheck(e, postqs, postcl, postidx) ==
+  \* replay of a model behaviour: the model had this action enabled, so the real chain accepts it
+  (IF "sm" \in DOMAIN e /\ ~e.ok THEN {"MODEL:EnabledActionRejected"} ELSE {}) \cup
+  IF e.ev = "Tip" THEN
+     (IF e.ok THEN (IF \E id \in IdsIn(postqs), w \in WinsIn(postqs) : postqs = TipNext(qs, e.h, e.q, e.amt, id, w) THEN {} ELSE {"MODEL:Tip"})
+      ELSE (IF postqs = qs THEN {} ELSE {"MODEL:TipRejected"}))
+  ELSE IF e.ev = "SubmitValue" THEN
+     (IF ~e.ok THEN (IF postqs = qs THEN {} ELSE {"MODEL:SubmitRejected"})
+      ELSE IF e.kind = "deposit" THEN (IF \E id \in IdsIn(postqs) : postqs = SubmitDepositNext(qs, e.h, e.q, id) THEN {} ELSE {"MODEL:SubmitDeposit"})
+      ELSE (IF HasCur(qs, e.q) /\ postqs = SubmitNormalNext(qs, e.q) THEN {} ELSE {"MODEL:Submit"}))
+  ELSE IF e.ev = "EndBlock" /\ e.ok THEN
+     (IF Len(cl) = 0 \/ idx >= Len(cl) THEN {}
+      ELSE IF \E id \in IdsIn(postqs), w \in WinsIn(postqs) :
+                 LET res == EndNext(qs, e.h, cl, idx, id, w) IN postqs = res.qs /\ postidx = res.idx
+           THEN {} ELSE {"MODEL:EndBlock"})
+  ELSE IF e.ev = "UpdateCyclelist" THEN
+     (IF postqs = qs /\ (e.ok => postidx = CyclelistIdxNext(idx, postcl)) /\ (~e.ok => (postidx = idx /\ postcl = cl)) THEN {} ELSE {"MODEL:UpdateCyclelist"})
+  ELSE IF e.ev \in {"WithdrawTokens"} THEN {}
+  ELSE (IF postqs = qs /\ postidx = idx /\ postcl = cl THEN {} ELSE {"MODEL:Other_" \o e.ev})
+
 Check(e) ==
+  SMCheck(e, Range(e.post.oracle.queries), e.post.oracle.cyclelist, e.post.oracle.cycidx) \cup
   LET postqs == Range(e.post.oracle.queries)
       postreps == Range(e.post.reports)
   IN IF e.ev = "SubmitValue" THEN CheckSubmit(e, postqs, postreps)
